@@ -50,6 +50,10 @@ CLAIMED = {
          'For all integer sequences and arguments: insert-before / remove / index-of / distinct-values / min / sum equal their list-model definitions (positions clamped as specified), subsequence is the positional filter with IEEE INF/NaN rules, every = not(some not) and for with several (dependent) variables = nested for, proved by induction. Partial: iter_product is modelled as the dependent product it computes (not its index-stack loop), aggregates on doubles and collations are not modelled; reverse/head/tail/count/cardinality functions are thin wrappers checked by correspondence.',
          'Trusted: Coq kernel; harness encoding of sequences and rounding of subsequence arguments (exact floor(x+1/2)); decimal.Decimal division precision for avg. No axioms.',
          'DESIGN.md §6 C08'),
+ 'C15': ('Coq proof of finite-map laws on association lists (get/put, size, remove, key uniqueness, the four merge policies) and list laws for arrays (1-based get with FOAY0001 exactly outside 1..size, put, insert-before, subarray, reverse); correspondence on operation sequences with operand snapshots',
+         'For all integer-keyed maps, values and keys: map:get(map:put(m,k,v),k) = v, other keys unchanged, size arithmetic, keys stay duplicate-free under put/remove, merge use-first/use-last/reject/combine per entry; for all arrays and indexes the array laws above. Immutability is immediate in Gallina; on the Python objects it is checked by snapshots around every call (three mutation defects and the NaN-key defect were fixed in /repo). Key identity across types (op:same-key) is an observation table with four known findings pinned to their exact deviation.',
+         'Trusted: Coq kernel; integer keys stand for all keys on which Python ==/hash coincide with same-key; harness encoding of maps/arrays. No axioms.',
+         'DESIGN.md §6 C15'),
 }
 
 NOT_YET = {}
